@@ -216,7 +216,11 @@ Definition handout_allow : list (string * loc) :=
   [ ("FindNode", "handout:pkg.isRPCNode");              (* marker "path points into an rpc", holds one fixed error *)
     ("parser.nextStatement", "handout:pkg.ignoreMe") ]. (* parser's error-recovery token, dropped by the caller *)
 
-Definition is_handout (x : facc) : bool := match x with (_, l, _, _) => String.prefix "handout:" l end.
+(* The same obligation covers ADOPTED ARGUMENTS: "adopt:T.f" records that a function stores a slice or map
+   parameter into field T.f without copying it (e.g. a setter that takes over the caller's list): two module
+   sets configured from one list would then share a backing array.  No such entry is allowed. *)
+Definition is_handout (x : facc) : bool :=
+  match x with (_, l, _, _) => String.prefix "handout:" l || String.prefix "adopt:" l end.
 
 Definition all_accs_of (tb : list func) : list facc :=
   flat_map (fun f => body_accs (f_name f) [] (f_body f)) tb.
